@@ -344,14 +344,17 @@ func RunConverge(sc Scenario, slot int) (out *Outcome) {
 			ts = append(ts, sc.Nodes[i].Name+"="+out.Tips[sc.Nodes[i].Name])
 		}
 		sig := "converge:stall:" + sc.Shape
+		live := true
 		for _, n := range nodes {
 			for _, ev := range n.Rec.Events() {
 				if ev.Op == "Ban" && strings.HasPrefix(ev.Who, "honest:") {
+					// a ban is permanent: the stall is explained, a retry cannot help
 					sig = "converge:stall-after-ban-honest:" + banKind(ev.Why) + ":" + sc.Shape
+					live = false
 				}
 			}
 		}
-		out.Problems = append(out.Problems, Problem{Sig: sig, Live: true,
+		out.Problems = append(out.Problems, Problem{Sig: sig, Live: live,
 			Desc: fmt.Sprintf("nodes did not converge to the heaviest tip %s within %d ms: %s", heaviest, sc.DeadlineMs, strings.Join(ts, " "))})
 	}
 	closeAll()
